@@ -74,10 +74,10 @@ PROPS = {
     'C10': {
         'technique': 'Verus contracts on the extracted text of ModelParameter::{mul, mul_add_assign} (IEEE ops uninterpreted); Kani harnesses on the real body of VoiceSet::weighted (cut from the tree every run, shim receiver) and on mul / mul_add_assign with exact-scaling weight constants',
         'level_text': 'unbounded proof (any weight, any vector length) that one accumulation step yields exactly lhs + weight*rhs per mean/variance/msd component and that mul scales every component; Kani (bit-precise, all parameter values): weights (1,0) return the first parameter set unchanged, (.5,.5) gives p0*.5 + .5*p1, msd presence follows the first voice',
-        'level_note': 'PARTIAL: the fold of VoiceSet::weighted (voice v paired with weight v, in order, any sign) is checked bounded only: its real body under a shim receiver, 2 voices (3 in the thorough tier), concrete values; which weight vector feeds which quantity in Models is not decided (flat_map chains exhaust CBMC even in a shim environment); floats are uninterpreted in Verus (no rounding claims)',
+        'level_note': 'PARTIAL: the fold of VoiceSet::weighted (voice v paired with weight v, in order, any sign) is checked bounded only: its real body under a shim receiver, 2 voices (3 in the thorough tier), concrete values; which weight vector, model and state feed durations / stream parameters / GV statistics in Models is checked bounded on the statements and closure bodies of Models::{duration, stream, gv} cut from their text (K-models-slice, shim environment); the label-major / state-minor layout produced by their flat_map / collect chains and the state range 2..2+nstate are NOT decided (the chains exhaust CBMC); floats are uninterpreted in Verus (no rounding claims)',
         'verus': ['interp'],
         'assumptions': [], 'trusted_base': [],
-        'not_decided': ['VoiceSet::weighted beyond 3 voices / for symbolic values', 'which weight vector feeds which quantity (Models::duration/stream/gv)', '"up to rounding" for identical voices with arbitrary weights'],
+        'not_decided': ['VoiceSet::weighted beyond 3 voices / for symbolic values', 'layout order and state range of Models::{duration, stream, gv} (flat_map / collect chains)', '"up to rounding" for identical voices with arbitrary weights'],
     },
     'C17': {
         'technique': 'Verus contracts on the extracted text of Labels::new, the four ToLabels impls and Engine::generator; Kani harnesses on the real body of Labels::load_from_strings (cut from the tree every run) over an abstraction of the string layer',
@@ -89,15 +89,15 @@ PROPS = {
         'not_decided': ['str::splitn / f64::from_str / jlabel::Label::from_str: tokenisation and parsing themselves, panic-freedom included', 'load_from_strings beyond 3 lines'],
     },
     'C04': {
-        'technique': 'Verus contracts on the extracted text of Tree::search_node, Model::{get_index,get_parameter}, ModelParameter::from_linear; Kani harnesses for find_tree_index and PDF row split',
+        'technique': 'Verus contracts on the extracted text of Tree::search_node, Model::{get_index,get_parameter}, ModelParameter::from_linear; Kani harnesses for find_tree_index, the PDF row split and the real body of convert_tree (cut from the tree every run; std BTreeMap replaced by a list-backed map)',
         'level_text': 'unbounded proof (any tree size / table size) that the Gaussian handed out is pdf[first tree with matching state][leaf reached by the yes/no walk - 1] and that a PDF row splits into means|variances|msd; partial correctness (termination of the walk assumed)',
-        'level_note': 'PARTIAL: question matching (jlabel-question fast path / regex) is an uninterpreted predicate; section split, header deserializer, tree text parser, convert_tree, window parsing and option loading are not under contract in this revision',
+        'level_note': 'PARTIAL: question matching (jlabel-question fast path / regex) is an uninterpreted predicate; section split, header deserializer, tree text parser and window parsing are not under contract; convert_tree is checked bounded on one-node trees only (single leaf, one question with two leaves, undefined references): the node-order / child-index rule for larger trees gave no answer under CBMC in 20 minutes',
         'verus': ['tree'],
         'hole_units': ['cond'],
         'assumptions': ['Question::test is a deterministic predicate of (question, label) (uninterpreted test_spec)',
                         'Model::find_tree_index == first tree whose state matches (Kani-checked, bounded trees <= 3)'],
         'trusted_base': [],
-        'not_decided': ['HTS wildcard semantics of question matching', 'split_sections / header serde / window rows / tree text -> node table (parse_node, convert_tree)', 'f32 little-endian PDF block offsets in parse_model', 'options -> Condition (load_model option loop)'],
+        'not_decided': ['HTS wildcard semantics of question matching', 'split_sections / header serde / window rows / tree text -> node table (parse_node; convert_tree beyond one-node trees)', 'f32 little-endian PDF block offsets in parse_model', 'options -> Condition (load_model option loop)'],
     },
     'C18': {
         'technique': 'Kani harnesses (built-in panic / overflow / index checks) on the loader\'s own slicing, integer accumulation and the PDF-length expressions of parse_data_section (cut from its text every run)',
@@ -156,7 +156,7 @@ PROPS = {
         'level_note': 'PARTIAL: "variance within 20% of the target for >= 100 eligible frames" and monotonicity in the weight are NOT decided (empirical convergence of a damped Newton iteration); conv_gv, calc_gv, calc_hmmobj_derivative and next_step are uninterpreted functions of their arguments',
         'verus': ['engine', 'gvpar'],
         'assumptions': [], 'trusted_base': [],
-        'not_decided': ['variance within 20% of gv_weight x GV mean', 'monotone growth with the weight', 'Models::gv switch from gv_off_context', 'numerics of conv_gv / calc_gv / next_step (which frames they rescale)', 'step-size schedule of parmgen'],
+        'not_decided': ['variance within 20% of gv_weight x GV mean', 'monotone growth with the weight', 'numerics of conv_gv / calc_gv / next_step (which frames they rescale)', 'step-size schedule of parmgen'],
     },
     'C14': {
         'technique': 'Verus contracts on the extracted text of MelCepstrum::postfilter_mcp (b-domain, floats and b2en uninterpreted), CepstrumT::{mc2b, freqt, c2ir}, CoefficientsT::{b2mc, b2en} and Engine::generator; Kani harnesses for the no-op cases; native contract on Condition::set_beta',
